@@ -1846,7 +1846,7 @@ Proof.
   intros G L Hstep.
   assert (SUB : forall s f, with_sub st s f = Some st' -> LInv st').
   { intros s f H. apply with_sub_inv in H as (sb & sb' & _ & _ & ->). apply (LInv_frame st); auto. }
-  destruct lb as [w o|w|s|s|s|s p0|s|s|s|s|s|s|w]; unfold step in Hstep; cbn in Hstep; try (eapply SUB; eauto; fail).
+  destruct lb as [w o|w|s|s|s|s p0|s|s|s|s|s|s|w|s|s]; unfold step in Hstep; cbn in Hstep; try (eapply SUB; eauto; fail).
   - (* LWrite *)
     destruct (nth_error (st_feeds st) w) as [[|]|] eqn:Hw; try discriminate.
     destruct (may_lock st w (wop_target o)) eqn:Hm; [|discriminate].
@@ -1916,7 +1916,7 @@ Qed.
 
 Lemma step_Inv h st lb st' : strict h -> LInv st -> Inv h st -> step h st lb = Some st' -> Inv h st'.
 Proof.
-  intros Hs L I Hstep. assert (G := proj1 I). destruct lb as [w o|w|s|s|s|s p0|s|s|s|s|s|s|w]; unfold step in Hstep; cbn in Hstep.
+  intros Hs L I Hstep. assert (G := proj1 I). destruct lb as [w o|w|s|s|s|s p0|s|s|s|s|s|s|w|s|s]; unfold step in Hstep; cbn in Hstep.
   - (* LWrite *)
     destruct (nth_error (st_feeds st) w) as [[|]|] eqn:Hw; try discriminate.
     destruct (may_lock st w (wop_target o)) eqn:Hm; [|discriminate].
@@ -2029,6 +2029,21 @@ Proof.
     destruct (nth_error (st_feeds st) w) as [[|]|]; try discriminate.
     destruct (lock_of st w); [|discriminate]. inversion Hstep; subst st'.
     split; [apply GInv_set_lock; auto|]. cbn. intros i sb Hi He. apply (SInv_frame h st); auto. apply (proj2 I _ _ Hi He).
+  - (* LCancel: the subscriber is ended from now on *)
+    apply with_sub_inv in Hstep as (sb & sb' & Hsb & Hf & ->).
+    destruct (is_registered sb && negb (s_end sb)); [|discriminate]. inversion Hf; subst sb'.
+    eapply Inv_sub_step; eauto; cbn; discriminate.
+  - (* LUnreg: only ended subscribers *)
+    apply with_sub_inv in Hstep as (sb & sb' & Hsb & Hf & ->).
+    destruct (s_end sb) eqn:He; [|discriminate].
+    assert (He' : s_end sb' = true).
+    { destruct (s_pc sb) as [[|k]| | |]; try discriminate.
+      - inversion Hf; subst; exact He.
+      - destruct (List.length (s_qs sb)); [discriminate|]. inversion Hf; subst; exact He. }
+    assert (Hq : s_qs sb' = s_qs sb).
+    { destruct (s_pc sb) as [[|k]| | |]; try discriminate; [inversion Hf; reflexivity|].
+      destruct (List.length (s_qs sb)); [discriminate|]. inversion Hf; reflexivity. }
+    eapply Inv_sub_step; eauto; congruence.
 Qed.
 
 (** ** The theorems of C04 *)
@@ -2348,7 +2363,7 @@ Qed.
 
 Lemma step_YAll h st lb st' : GInv st -> step h st lb = Some st' -> YAll st -> YAll st'.
 Proof.
-  intros G Hstep Y. destruct lb as [w o|w|s|s|s|s p0|s|s|s|s|s|s|w]; unfold step in Hstep; cbn in Hstep.
+  intros G Hstep Y. destruct lb as [w o|w|s|s|s|s p0|s|s|s|s|s|s|w|s|s]; unfold step in Hstep; cbn in Hstep.
   - (* LWrite: the stores only grow *)
     destruct (nth_error (st_feeds st) w) as [[|]|] eqn:Hw; try discriminate.
     destruct (may_lock st w (wop_target o)); [|discriminate].
@@ -2522,6 +2537,16 @@ Proof.
     destruct (nth_error (st_feeds st) w) as [[|]|]; try discriminate.
     destruct (lock_of st w); [|discriminate]. inversion Hstep; subst st'.
     intros i sb Hi He. destruct (Y i sb Hi He) as [A0 A B C]. constructor; auto.
+  - apply with_sub_inv in Hstep as (sb & sb' & Hsb & Hf & ->).
+    destruct (is_registered sb && negb (s_end sb)); [|discriminate]. inversion Hf; subst sb'.
+    eapply YAll_sub_step; eauto; cbn; discriminate.
+  - apply with_sub_inv in Hstep as (sb & sb' & Hsb & Hf & ->).
+    destruct (s_end sb) eqn:He; [|discriminate].
+    assert (He' : s_end sb' = true).
+    { destruct (s_pc sb) as [[|k]| | |]; try discriminate.
+      - inversion Hf; subst; exact He.
+      - destruct (List.length (s_qs sb)); [discriminate|]. inversion Hf; subst; exact He. }
+    eapply YAll_sub_step; eauto; congruence.
 Qed.
 
 Lemma YAll_init nw subs : YAll (init nw subs).
